@@ -455,10 +455,13 @@ pub fn gen_script(t: &mut Tape, max_frames: usize) -> Script {
     // tens of kilobytes (sizes around 2^15, 2^16 and beyond, and hundreds of growth steps), so
     // that nothing silently depends on counts or sizes staying small.
     let scale = t.draw(16);
+    // ... and one long run in sixty-four is *very* long: a little under / over 2^16 tiny frames on
+    // one connection (beyond any 16-bit counter or index)
+    let wide = scale == 15 && t.draw(64) == 63;
     let max_frames = if scale == 15 { 40 + t.draw(260) } else { max_frames };
     let big = scale == 14;
-    let n = 1 + t.draw(max_frames);
-    let size_style = if scale == 15 { [0, 1, 3][t.draw(3)] } else { t.draw(4) }; // 0 tiny, 1 around a growth step, 2 medium random, 3 mixed
+    let n = if wide { 65_300 + t.draw(500) } else { 1 + t.draw(max_frames) };
+    let size_style = if wide { 0 } else if scale == 15 { [0, 1, 3][t.draw(3)] } else { t.draw(4) }; // 0 tiny, 1 around a growth step, 2 medium random, 3 mixed
     let mut kinds = Vec::new();
     let mut frames = Vec::new();
     let mut offset = 0usize;
